@@ -293,7 +293,7 @@ def gen_acc(rng, mode, allow_bad):
     f = rng.choice(["local", "clark", "pair", "pair", "none"])
     if f == "local":
         return ["str", nm]
-    if f == "clark" and ns:
+    if f == "clark":               # incl. the empty Clark namespace "{}name" = no namespace, as ("", name)
         return ["str", "{%s}%s" % (ns, nm)]
     return ["pair", None if f == "none" else ns, nm]
 
@@ -379,7 +379,12 @@ REGRESSION_EQ = [('<a k="v"/>', '<a xmlns="d" k="v"/>'), ('<a xmlns="d" k="v"/>'
 
 def fixed_cases():
     yield from REGRESSION
-    forms = [["str", "k"], ["str", "{d}k"], ["pair", "d", "k"], ["pair", "", "k"], ["pair", None, "k"]]
+    for kind in KINDS:             # "{}name" is ("", name), not (the node's namespace, name)
+        yield kind, [["set", ["pair", "", "x"], "1"], ["set", ["str", "x"], "2"], ["get", ["str", "{}x"]], ["value", 0],
+                     ["contains", ["str", "{}x"]], ["get", ["pair", "", "x"]], ["nset", ["str", "{}y"], "3"], ["iter"],
+                     ["ncontains", ["pair", "", "y"]], ["nget", ["str", "{}y"]], ["value", 1], ["del", ["str", "{}x"]],
+                     ["contains", ["pair", "", "x"]], ["contains", ["str", "x"]], ["pop", ["str", "{}y"]], ["len"], ["iter"]]
+    forms = [["str", "k"], ["str", "{d}k"], ["pair", "d", "k"], ["pair", "", "k"], ["pair", None, "k"], ["str", "{}k"]]
     for kind in KINDS:
         for a in forms:
             yield kind, [["set", a, "1"], ["get", a], ["contains", a], ["value", 0], ["setvalue", 0, "2"], ["nget", a],
@@ -723,7 +728,7 @@ def run(ctx, args):
              "subscripts incl. slice deletion, value/local_name/namespace through previously fetched Attribute objects) on "
              "7 kinds of nodes (created with/without namespace, parsed under a default / prefixed / other default "
              "namespace, created and moved under a default namespace, parsed with a prefix bound to the default namespace); "
-             "accessors: local name, Clark notation, (ns, name), ('', name), (None, name), rarely malformed; first the "
+             "accessors: local name, Clark notation incl. '{}name', (ns, name), ('', name), (None, name), rarely malformed; first the "
              "finding witnesses and hand-written sequences, then random sequences in mode 'free' (uniform) and 'guarded' "
              "(avoids the classes of the open findings so that whole runs stay inside the theorem's domain). evaluations = "
              "steps (each compared with the Gallina model and with the dictionary specification, both evaluated in Coq) "
